@@ -4,6 +4,7 @@
 package core
 
 import (
+	_ "embed"
 	"fmt"
 	"go/ast"
 	"go/constant"
@@ -37,6 +38,25 @@ type Prog struct {
 	cgCHA    *callgraph.Graph
 	all      map[*ssa.Function]bool
 	modFuncs []*ssa.Function
+	inlined  map[string]bool
+
+	// InlinedHelpers lists the functions that do not exist in the reviewed tree and whose calls were replaced by
+	// their bodies in the analysed SSA form (see inline.go).
+	InlinedHelpers []string
+}
+
+//go:embed baseline_funcs.txt
+var baselineFuncsTxt string
+
+// BaselineFuncs is the inventory of top-level functions and methods of the reviewed tree.
+func BaselineFuncs() map[string]bool {
+	m := map[string]bool{}
+	for _, l := range strings.Split(baselineFuncsTxt, "\n") {
+		if l = strings.TrimSpace(l); l != "" && !strings.HasPrefix(l, "#") {
+			m[baselineKey(l)] = true
+		}
+	}
+	return m
 }
 
 // AnalysisError is raised (as panic) for conditions that must never be
@@ -113,6 +133,10 @@ func Load(repo string, overlay map[string][]byte) *Prog {
 	prog, _ := ssautil.AllPackages(pkgs, ssa.InstantiateGenerics)
 	prog.Build()
 	p.SSA = prog
+	if os.Getenv("DBLINT_NOINLINE") == "" {
+		p.InlinedHelpers = p.InlineNewHelpers(BaselineFuncs())
+		p.modFuncs = nil
+	}
 	return p
 }
 
@@ -313,6 +337,9 @@ func (p *Prog) ModuleFuncs() []*ssa.Function {
 	add = func(fn *ssa.Function) {
 		if fn == nil || seen[fn] || fn.Blocks == nil || fn.Synthetic != "" {
 			return
+		}
+		if p.inlined[FuncName(fn)] {
+			return // a new helper whose calls were all replaced by its body: analysed at its call sites
 		}
 		seen[fn] = true
 		out = append(out, fn)
